@@ -258,9 +258,15 @@ def confirm_and_report(ctx, scen_by_id, violations, props, observer='TraceObs', 
     violation that reproduces is reported (VIOLATION or KNOWN-FINDING); one that does not is inconclusive."""
     known = [k for k in load_known() if k.get('status') == 'known']
     seen = set()
+    mine = [(p, sid) for p, sid in violations if p == ctx.prop]
+    ctx.extra['l1_violating_scenarios'] = len(mine)
     for prop, sid in violations:
         if prop != ctx.prop:
             continue
+        if len(ctx.violations) >= 6:
+            # enough replay artefacts; the remaining violating scenarios are counted, not re-executed
+            ctx.notes.append('%d further violating scenario(s) not re-executed' % (len(mine) - len(seen)))
+            break
         s = scen_by_id.get(sid)
         if s is None:
             raise Infra('observer reported unknown scenario %r' % sid)
